@@ -413,6 +413,8 @@ def run(rep, ctx):
     rule_M1(rep, funcs)
     rule_P2(rep, funcs)
     rule_R1(rep, funcs)
+    rule_H1(rep, repo)
+    rule_H2(rep, repo)
     return rep
 
 
@@ -1364,3 +1366,169 @@ def rule_R1(rep, funcs):
                      "and the added constraint no longer forces the flag" % site)
     if n < 8:
         raise AnalysisBroken("C01.R1: only %d sub-expression sites" % n)
+
+
+# ---------------------------------------------------------------------------------------------------
+# H1 sub-expression maps: equality compares everything that distinguishes two constraints
+# ---------------------------------------------------------------------------------------------------
+H1_REQUIRED = {
+    "op==CustomFunctionalConstraint": {"GetArguments", "GetParameters"},
+    "op==ConditionalConstraint": {"GetConstraint"},
+    "op==LinearFunctionalConstraint": {"GetAffineExpr"},
+    "op==QuadraticFunctionalConstraint": {"GetQuadExpr"},
+    "mp::ConditionalConstraint::operator==": {"GetConstraint"},
+    "mp::AlgebraicConstraint::operator==": {"Body::equals", "RhsOrRange::equals"},
+    "mp::AlgConRhs::equals": {"rhs"},
+    "mp::AlgConRange::equals": {"lb", "ub"},
+    "mp::LinTerms::equals": {"coefs_", "vars_"},
+    "mp::QuadTerms::operator==": {"coefs_", "vars1_", "vars2_"},
+    "mp::QuadAndLinTerms::equals": {"LinTerms::equals", "QuadTerms::equals"},
+    "mp::AlgebraicExpression::operator==": {"GetBody", "constant_term"},
+}
+
+
+def rule_H1(rep, repo):
+    h1 = rep.rule("C01.H1", "TABLE", "the equality used by the sub-expression maps is a conjunction comparing every distinguishing part of two constraints on both operands", floor=40)
+    d = export(U, rec=[r"mp::(LinTerms|QuadTerms|AlgConRhs|AlgConRange|AlgebraicExpression)"],
+               fn=[r"mp::operator==", r"mp::(LinTerms|QuadTerms|QuadAndLinTerms|AlgConRhs|AlgConRange|AlgebraicExpression|AlgebraicConstraint|ConditionalConstraint)::(equals|operator==)"], repo=repo)
+    F = Facts([d])
+    funcs = [f for f in F.funcs if not f.is_dependent() and f.body is not None]
+    recs = {}
+    for r in d.get("records", []):
+        if not r.get("full", "").startswith("mp::") and "<" in r.get("full", ""):
+            continue
+        recs.setdefault(r["qn"], set()).update(x["name"] for x in r.get("fields", []))
+    # field-level reference from the class declarations
+    fieldref = {"mp::LinTerms::equals": recs.get("mp::LinTerms"), "mp::QuadTerms::operator==": recs.get("mp::QuadTerms")}
+    for qn, fs in fieldref.items():
+        if not fs or fs != H1_REQUIRED[qn]:
+            raise AnalysisBroken("C01.H1: data members of %s are %s, the reference table says %s" % (qn, fs, H1_REQUIRED[qn]))
+    n = 0
+    for f in sorted(funcs, key=lambda g: g.full):
+        if f.qn == "mp::operator==":
+            t = (f.params[0].get("ct") or "") if f.params else ""
+            m = re.search(r"reference_wrapper<const mp::([A-Za-z]+)", t)
+            if not m:
+                continue
+            cls = m.group(1)
+            ref = H1_REQUIRED.get("op==" + cls)
+            mid = re.search(r"mp::([A-Za-z_0-9]+)ConstraintId", t)
+            label = "operator==(%s%s)" % (cls, ("<" + mid.group(1) + ">") if mid else ("<" + re.sub(r"mp::|std::", "", t.split("ConditionalConstraint<")[-1])[:50] if cls == "ConditionalConstraint" else ""))
+        else:
+            ref = H1_REQUIRED.get(f.qn)
+            label = re.sub(r"mp::", "", f.full)[:90]
+        if ref is None:
+            continue
+        n += 1
+        rets = [r for r in f.walk() if r["k"] == "ReturnStmt"]
+        if len(rets) != 1:
+            h1.fail(label, short_loc(f.loc), "%s is not a single return expression" % label)
+            continue
+        conj = []
+
+        def flat(e):
+            e = strip(e)
+            while e["k"] in ("ExprWithCleanups", "ParenExpr"):
+                e = strip(kids(e)[0])
+            if e["k"] == "BinaryOperator" and e.get("op") == "&&":
+                flat(kids(e)[0]); flat(kids(e)[1])
+            else:
+                conj.append(e)
+        flat(kids(rets[0])[0])
+        pn = [p["name"] for p in f.params]
+        labels = set()
+        ok = True
+        why = ""
+        for c in conj:
+            if c["k"] in ("BinaryOperator", "CXXOperatorCallExpr") and c.get("op") == "==":
+                a, b = (kids(c) if c["k"] == "BinaryOperator" else call_args(c))
+                ta, tb = nt(render(a)), nt(render(b))
+                refs_a = sorted({p for p in pn if re.search(r"(?<![A-Za-z_0-9])%s(?![A-Za-z_0-9])" % re.escape(p), ta)})
+                refs_b = sorted({p for p in pn if re.search(r"(?<![A-Za-z_0-9])%s(?![A-Za-z_0-9])" % re.escape(p), tb)})
+                if refs_a == refs_b and ta != "*this":
+                    ok = False
+                    why = "compares %s with %s (the same operand on both sides)" % (ta, tb)
+                # normalise the operand names
+                for i, p in enumerate(pn):
+                    ta = re.sub(r"(?<![A-Za-z_0-9])%s(\.get\(\))?\." % re.escape(p), "@.", ta)
+                    tb = re.sub(r"(?<![A-Za-z_0-9])%s(\.get\(\))?\." % re.escape(p), "@.", tb)
+                ta2 = ta if ta.startswith("@.") else "@." + ta
+                tb2 = tb if tb.startswith("@.") else "@." + tb
+                if ta == "*this":
+                    labels.add("*this")
+                    continue
+                if ta2 != tb2:
+                    ok = False
+                    why = "compares %s with %s" % (ta, tb)
+                labels.add(re.sub(r"\(\)$", "", ta2[2:]))
+            elif c["k"] == "CXXMemberCallExpr" and (c.get("callee") or "").split("::")[-1] == "equals":
+                cal = c["callee"]
+                cls2 = cal.split("::")[-2]
+                base = {"LinTerms": "LinTerms::equals", "QuadTerms": "QuadTerms::equals", "QuadAndLinTerms": "Body::equals", "AlgConRhs": "RhsOrRange::equals", "AlgConRange": "RhsOrRange::equals"}.get(cls2, cls2 + "::equals")
+                if f.qn == "mp::AlgebraicConstraint::operator==" and cls2 == "LinTerms":
+                    base = "Body::equals"
+                labels.add(base)
+            else:
+                ok = False
+                why = "conjunct %s is not a comparison" % render(c)[:60]
+        missing = ref - labels
+        h1.check(ok and not missing, label, short_loc(f.loc), "%s compares %s" % (label, sorted(ref)),
+                 "%s %s: two constraints that differ there share one result variable, i.e. one of them is replaced by the other in the delivered model" %
+                 (label, ("does not compare " + ", ".join(sorted(missing))) if missing else why))
+    if n < 40:
+        raise AnalysisBroken("C01.H1: only %d equality functions" % n)
+
+
+def rule_H2(rep, repo):
+    h2 = rep.rule("C01.H2", "FLOW", "the (variable, constant) key of single-variable equality comparisons is taken after the coefficient is normalised to 1", floor=4)
+    d = export(U, fn=[r"mp::ConstraintPreprocessors::(PreprocessConstraint|PreprocessEqVarConst__unifyCoef)", r"mp::MIPFlatConverter::(IsVarConstCmp|MapFind|MapInsert)", r"mp::BasicFCC::Convert"], repo=repo)
+    F = Facts([d])
+    funcs = [f for f in F.funcs if not f.is_dependent() and f.cfg is not None]
+    pp = [f for f in funcs if f.qn == "mp::ConstraintPreprocessors::PreprocessConstraint" and f.params and re.search(r"ConditionalConstraint<mp::AlgebraicConstraint<mp::LinTerms, mp::AlgConRhs<0>>>", f.params[0].get("ct") or "")]
+    if len(pp) != 1:
+        raise AnalysisBroken("C01.H2: PreprocessConstraint(CondLinConEQ&): %d instantiations" % len(pp))
+    f = pp[0]
+    uc = [c for c in f.walk() if c["k"] in ("CallExpr", "CXXMemberCallExpr") and (c.get("callee") or "").endswith("::PreprocessEqVarConst__unifyCoef")]
+    ok = len(uc) == 1
+    if ok:
+        # every return that skips the normalisation is taken because the result is already decided
+        w = f.cfg.path_avoiding(None, "exit", [uc[0]["i"]], from_entry=True)
+        rets_before = [r for r in f.walk() if r["k"] == "ReturnStmt" and f.cfg.position(r) is not None and not f.cfg.before(uc[0], r)]
+        okr = True
+        for r in rets_before:
+            fa = dict(nfacts(f, r))
+            okr = okr and (fa.get("CheckEmptySubCon(c,prepro)") is True or fa.get("FixEqualityResult(c,prepro)") is True)
+        ok = okr and len(rets_before) == 2
+    h2.check(ok, "normalise-before-map", short_loc(f.loc), "PreprocessConstraint(CondLinConEQ) normalises coef*var == const unless the result is already decided",
+             "a single-variable equality can reach the (variable, constant) map with a coefficient other than 1: 2*x == 6 and x == 6 share one flag")
+    u = [g for g in funcs if g.qn == "mp::ConstraintPreprocessors::PreprocessEqVarConst__unifyCoef"]
+    if not u and ok:
+        raise AnalysisBroken("C01.H2: unifyCoef not found")
+    g = u[0] if u else f
+    sr = [c for c in g.walk() if c["k"] == "CXXMemberCallExpr" and (c.get("callee") or "").endswith("::set_rhs")]
+    sc = [c for c in g.walk() if c["k"] == "CXXMemberCallExpr" and (c.get("callee") or "").endswith("::set_coef")]
+    ok = len(sr) == 1 and len(sc) == 1
+    if ok:
+        a = strip(call_args(sr[0])[0])
+        ok = a["k"] == "BinaryOperator" and a.get("op") == "/" and nt(render(kids(a)[0])) == "con.rhs()" and nt(render(kids(a)[1])) == "coef" and \
+            [nt(render(x)) for x in call_args(sc[0])] in (["0", "1"], ["0", "1.0"]) and \
+            ("1==body.size()", True) in nfacts(g, sr[0])
+        inits = {v["name"]: nt(render(kids(v)[0])) for v in g.walk() if v["k"] == "VarDecl" and kids(v)}
+        cv_ = [v for v in g.walk() if v["k"] == "VarDecl" and v.get("name") == "coef"]
+        ok = ok and inits.get("coef") == "body.coef(0)" and len(cv_) == 1 and "&" not in (cv_[0].get("ct") or "")
+    h2.check(ok, "unify-coef", short_loc(g.loc), "coef*var == rhs becomes var == rhs/coef (coef is a copy taken before the reset)")
+    iv = [g for g in funcs if g.qn == "mp::MIPFlatConverter::IsVarConstCmp"]
+    if not iv:
+        raise AnalysisBroken("C01.H2: IsVarConstCmp not found")
+    g = iv[0]
+    r = [x for x in g.walk() if x["k"] == "ReturnStmt"]
+    txt = [nt(render(kids(x)[0])) for x in r]
+    okk = any("linEQ.var(0)" in t and "linEQ.rhs()" in t for t in txt) and any(("1==linEQ.size()", True) in nfacts(g, x) for x in r if "linEQ.var(0)" in render(x))
+    h2.check(okk, "key", short_loc(g.loc), "the key is (var(0), rhs()) of a one-term body")
+    mf = [g for g in funcs if g.qn in ("mp::MIPFlatConverter::MapFind", "mp::MIPFlatConverter::MapInsert") and g.params and "AlgConRhs<0>" in (g.params[0].get("ct") or "") and "LinTerms" in (g.params[0].get("ct") or "")]
+    for g in mf:
+        calls = [c for c in g.walk() if c["k"] in ("CallExpr", "CXXMemberCallExpr") and (c.get("callee") or "").endswith("VarConstCmp") and "IsVarConstCmp" not in c.get("callee")]
+        gen = [c for c in g.walk() if c["k"] in ("CallExpr", "CXXMemberCallExpr") and (c.get("callee") or "").endswith("__Impl")]
+        ok = len(calls) == 1 and len(gen) == 1 and ("isVCC.first", True) in nfacts(g, calls[0]) and ("isVCC.first", False) in nfacts(g, gen[0]) and \
+            [nt(render(a)) for a in call_args(calls[0])][:2] == ["isVCC.second.first", "isVCC.second.second"]
+        h2.check(ok, "dispatch|" + g.name, short_loc(g.loc), "%s: var==const comparisons use the (var, const) map, all others the structural map" % g.name)
